@@ -107,11 +107,58 @@ func c01Build(cfg c01Cfg, rel *ring.Desc) *c01Built {
 	}
 	rc := ring.Config{HeartbeatTimeout: time.Duration(cfg.timeout) * time.Second, ReplicationFactor: cfg.rf,
 		ZoneAwarenessEnabled: cfg.za, SubringCacheDisabled: true}
-	r, err := ring.VerifNewRing(rc, abs, nil)
+	// A third of the rings are not built fresh: the client first holds a predecessor content (an
+	// instance more or less, a token hand-over that leaves the merged token list identical, a zone
+	// move) and is then updated to the case's content, as a long-lived client would be. The answer
+	// must depend on the latest content only, so model and judge see only `rel`.
+	var r *ring.Ring
+	var err error
+	if pred := c01Predecessor(abs, relEnc); pred != nil {
+		r, err = ring.VerifNewRing(rc, pred, nil)
+		if err == nil {
+			r.VerifUpdateRingState(cloneDesc(abs))
+		}
+	} else {
+		r, err = ring.VerifNewRing(rc, abs, nil)
+	}
 	if err != nil {
 		panic(err)
 	}
 	return &c01Built{cfg: cfg, rel: rel, relEnc: relEnc, r: r, toks: r.VerifRingTokens()}
+}
+
+// c01Predecessor derives (deterministically from the case) an earlier ring content, or nil.
+func c01Predecessor(abs *ring.Desc, enc string) *ring.Desc {
+	h := uint64(14695981039346656037)
+	for i := 0; i < len(enc); i++ {
+		h = (h ^ uint64(enc[i])) * 1099511628211
+	}
+	ids := make([]string, 0, len(abs.Ingesters))
+	for id := range abs.Ingesters {
+		ids = append(ids, id)
+	}
+	sort.Strings(ids)
+	if len(ids) == 0 || h%6 < 3 {
+		return nil
+	}
+	pred := cloneDesc(abs)
+	x := ids[(h>>8)%uint64(len(ids))]
+	xi := pred.Ingesters[x]
+	switch h % 6 {
+	case 3: // x registers only now
+		delete(pred.Ingesters, x)
+	case 4: // x takes its tokens over from a previous owner in another zone: same merged token list
+		prev := xi
+		prev.Id, prev.Addr, prev.Zone = "zz-prev-owner", "zz-prev-addr", "zz-prev-zone"
+		xi.Tokens = nil
+		pred.Ingesters[x] = xi
+		pred.Ingesters[prev.Id] = prev
+	default: // x moves zone, and an instance that has left since is still there
+		xi.Zone = "zz-old-zone"
+		pred.Ingesters[x] = xi
+		pred.Ingesters["zz-gone"] = ring.InstanceDesc{Id: "zz-gone", Addr: "zz-gone", Zone: xi.Zone, State: ring.ACTIVE, Timestamp: xi.Timestamp, Tokens: []uint32{uint32(h >> 32)}}
+	}
+	return pred
 }
 
 // api: "get" (Ring.Get with buffer variant buf) or "opt:<n>" (GetWithOptions(WithReplicationFactor(n))).
